@@ -84,7 +84,7 @@ PROPS["C08"] = {
 
 PROPS["C13"] = {
     "level": "proof",
-    "technique": "Verus contracts on the extracted update_shard_metadata (in-memory: whole function; object store: the one-attempt body of the CAS loop over a ghost shard store with the conditional-PUT contract) and on ShardRouter::update_routing",
+    "technique": "Verus contracts on the extracted update_shard_metadata (in-memory: whole function under a rely that lets other threads change the shared DashMap between any two of its calls -- a success is one write whose linearisation point satisfies the sequential contract; object store: the one-attempt body of the CAS loop over a ghost shard store with the conditional-PUT contract, and load_shard_with_etag / atomic_save_shard: value and ETag from one GET, one conditional PUT) and on ShardRouter::update_routing (same rely: the cached entry is never replaced by a lower generation at the linearisation point)",
     "frame_scans": [{"file": "src/metadata/s3.rs", "patterns": [".atomic_save_shard("],
                      "allowed_units": ["s3_update_shard_body"],
                      "message": "shard metadata objects are written only by update_shard_metadata (generation-fenced)"}],
@@ -93,7 +93,8 @@ PROPS["C13"] = {
     "assumptions": [
         "conditional PUT: create-if-absent for the \"none\" tag, update only if the stored ETag equals the one given, atomic, no effect on failure (ghost shard store shim)",
         "stored generations are below u64::MAX (generation + 1 does not overflow)",
-        "DashMap get / insert have map semantics; the in-memory backend's get-then-insert is not atomic under real multi-threading (schedule question, not covered)",
+        "DashMap (in-memory shard table, router cache): every call is atomic; between two calls of one thread other threads may change the map arbitrarily (havoc at every standalone get / insert and when an entry is taken), while an entry (DashMap::entry) is held nobody else touches that key; stored generations stay below u64::MAX. Under this rely the in-memory update and the router update are proved for all interleavings by their linearisation point (ghost lin_pre / lin_post); the pre-fix get-then-insert shape fails the same obligations (defect F29, repaired in /repo b94443e)",
+        "the entry match is read as `entry_begin; if occupied { .. } else { .. }` with OccupiedEntry::get / insert and VacantEntry::insert acting on that key (declared rewrite)",
         "ShardMetadata is abstracted to (shard_id, generation, rest); serde round-trips it",
         "match-guard desugaring of the ShardNotFound arm (declared rewrite; equivalent because the fall-through arm returns the same error)",
     ],
